@@ -50,7 +50,10 @@ def build_all(lean_targets=("nunmodel",)):
         if rc != 0:
             res["ok"] = False; res["cargo_ok"] = False
         targets = list(lean_targets)
-        rc, out = run(["lake", "build"] + targets, cwd=LEAN, timeout=3000)
+        try:
+            rc, out = run(["lake", "build"] + targets, cwd=LEAN, timeout=1500)
+        except subprocess.TimeoutExpired:
+            rc, out = 1, "error: lake build timed out after 1500 s\n- " + "\n- ".join(t for t in targets if t.startswith("NunVerif"))
         res["lake_log"] = out[-6000:]
         if rc != 0:
             res["ok"] = False
